@@ -54,7 +54,7 @@ ASBUILT = {
   family with symbolic positive gauges on every bond (one-site, nearest-neighbour by certificates, renorm; the
   long-range value goal is a numeric-only supplement). Fixed: `tensor_network_apply_op_op` with a sub-operator
   renaming all site labels of the target (§5).""",
-"C07": """* **As built** (`props/c07.py`, 72 quick obligations, ≈ 130 s): `constant_gates`, `param_gate[name]` (every
+"C07": """* **As built** (`props/c07.py`, 195 quick obligations after the seeded campaign, ≈ 120–170 s, dominated by `param_gate[SU4]`): `constant_gates`, `param_gate[name]` (every
   registered parametrised builder is unitary for all parameter values: half-angle `expi` generators),
   `param_gate_relations`, `exact_simulators[sim,cfg,prog]` (Circuit in 5 `gate_contract` modes + CircuitDense × 10
   programs on 3 qubits incl. SWAP/IDEN, idle wires, controls, raw symbolic matrices: to_dense, amplitudes, unitary,
@@ -62,7 +62,12 @@ ASBUILT = {
   `history_no_stale_cache`, `history_param_update`, `samplers_numeric` (numeric only). Queries are called with
   simplification passes switched off (their structure detection is C04's subject). Numeric gate splitting
   (`split-gate` modes on constant gates) produces float constants identified up to 64 ulp. Fixed: SWAP on
-  CircuitPermMPS, `get_uni` dropping idle / swapped wires (§5). PEPS/PEPO simulators are outside.""",
+  CircuitPermMPS, `get_uni` dropping idle / swapped wires (§5). After the seeded campaign (sub-agent):
+  `history_named_params` (named parameters registered directly or through OpenQASM 3 `input`, 12 update histories by
+  name / index / mixed, every cached query after every step), `mps_simulators` query kinds rdm / expectation / marginal
+  on programs with complex amplitudes (decided in two stages: state == reference, query == the same quantity of the held
+  dense state), `perm_tracking` (a non-adjacent gate, then SWAP on every pair, then further gates; 3 and 4 qubits, all
+  simulators), `mps_lazy_numeric` (labelled numeric-only). PEPS/PEPO simulators are outside.""",
 "C08": """* **As built** (`props/c08.py`, 64 quick / 159 thorough, 3 s quick): `history` (≤ 3 operations from canonize / shift
   / gate (split, nonlocal, swap+split) / compress / measure / svals / rdm on L = 3–4, D = d = 2, real symbols, cutoff 0:
   after every step the recorded `(lo, hi)` window is *true* — isometry certificates for every site outside it),
@@ -160,4 +165,12 @@ ASBUILT = {
   non-inplace `pair_simplify` / `loop_simplify`, `gauge_local` losing the stripped exponent, `tensor_make_single_bond`
   naming; known: `squeeze()` default, hyper index + pairwise sweeps, `canonize_around` through a hyper index, bond
   growth with `reduced=False, cutoff=0` (§5).""",
+"C12": """* **As built** (`props/c12.py`, written by a sub-agent and reviewed; 241 quick obligations, ≈ 35 s): 2D boundary
+  contraction from every side / sequence / mode / option on 3×2 … 4×3 lattices (3×3 with every bond 2 in the thorough
+  tier), direction wrappers, layered ⟨ψ|ψ⟩ networks, row / column / plaquette environments as sandwich identities,
+  `contract_compressed` along **every** connected contraction path of a 4-ring, `contract_around`, `compress_between`
+  gauge choices, the arbitrary-geometry compressors, 3D 3×2×2 lattices, periodic lattices; bond-cap goals after every step
+  of a step-by-step sweep with contract-free stubs (shapes only). Projector-type schemes: product-cut symbolic instances
+  + certified building blocks + numeric cross-run (see §4). Fixed: `TensorNetwork3D.contract_boundary_from(inplace=False)`
+  returning `None` (§5).""",
 }
